@@ -396,6 +396,16 @@ def export_json(stats, verbose=0, category_filter=None, merchant_filter=None):
     transfers_total = abs(sum(d['total'] for d in by_merchant.values()
                               if 'transfer' in [t.lower() for t in d.get('tags', set())]))
 
+    # Prefer the transaction-level flow totals computed by analyze_transactions(), which
+    # the HTML, Markdown and text outputs report: the per-merchant net totals above
+    # differ as soon as one merchant mixes signs or tags, and income itself is part of
+    # stats['total'], which made net_cash_flow negative for any budget with income.
+    credits_total = stats.get('credits_total', credits_total)
+    income_total = stats.get('income_total', income_total)
+    if 'transfers_net' in stats:
+        transfers_total = abs(stats['transfers_net'])
+    net_cash_flow = stats.get('cash_flow', income_total - stats['total'])
+
     output = {
         'summary': {
             'total_spending': round(stats['total'], 2),
@@ -405,7 +415,7 @@ def export_json(stats, verbose=0, category_filter=None, merchant_filter=None):
             'num_months': stats['num_months'],
             'income_total': round(income_total, 2),
             'transfers_total': round(transfers_total, 2),
-            'net_cash_flow': round(income_total - stats['total'], 2) if income_total > 0 else None,  # transfers excluded
+            'net_cash_flow': round(net_cash_flow, 2) if income_total > 0 else None,  # transfers excluded
         },
         'by_month': {month: {'total': round(total, 2)}
                      for month, total in sorted(by_month.items())},
